@@ -490,6 +490,52 @@ static Outcome try_load(const std::string& dir, e::engine_schema& loaded, std::s
         return Outcome::other_exception;
     }
 }
+// decision table for one stored triple in one layout (shared by the enumerated box and the in-place walk)
+static void judge_triple(bool db2, const Triple& t, e::engine_schema base, Outcome o, e::engine_schema loaded, const std::string& what,
+                         const std::string& dir, Ctx& ctx, bool& adjacent_out)
+{
+    std::vector<e::engine_schema> exact, other_layout;
+    for (auto& kv : supported_triples())
+        if (kv.second.maj == t.maj && kv.second.min == t.min && kv.second.pat == t.pat)
+            (is_v2(kv.first) == db2 ? exact : other_layout).push_back(kv.first);
+    bool adjacent = false;
+    for (auto& kv : supported_triples())
+    {
+        int64_t d = std::llabs(static_cast<int64_t>(kv.second.maj) - t.maj) + std::llabs(static_cast<int64_t>(kv.second.min) - t.min) +
+                    std::llabs(static_cast<int64_t>(kv.second.pat) - t.pat);
+        if (d <= 1)
+            adjacent = true;
+    }
+    adjacent_out = adjacent;
+    if (!exact.empty())
+    {
+        ctx.label("supported-triple");
+        VF_CHECK(o == Outcome::loaded, ctx.describe << ": a supported version was not loaded: " << what);
+        VF_CHECK(std::find(exact.begin(), exact.end(), loaded) != exact.end(), ctx.describe << ": misidentified: " << what);
+        if (exact.size() == 2)
+            VF_CHECK(loaded == base, ctx.describe << ": 1.18.0 variant misidentified: created as " << sname(base) << ", " << what);
+        VF_CHECK(e::database_exists(dir), ctx.describe << ": database_exists() false for a loadable library");
+    }
+    else if (!other_layout.empty())
+    {
+        // tolerance: a supported triple found in the other layout may load as exactly that schema or be rejected, never as something else
+        ctx.label("supported-triple-in-other-layout");
+        if (o == Outcome::loaded)
+            VF_CHECK(std::find(other_layout.begin(), other_layout.end(), loaded) != other_layout.end(), ctx.describe << ": misidentified: " << what);
+    }
+    else if (t.maj == 3 && t.min == 0 && t.pat == 0)
+    {
+        // tolerance: 3.0.0 is in the enum but not in supported_schemas
+        ctx.label("3.0.0");
+        if (o == Outcome::loaded)
+            VF_CHECK(loaded == e::engine_schema::schema_3_0_0, ctx.describe << ": misidentified: " << what);
+    }
+    else
+    {
+        ctx.label(adjacent ? "unsupported-neighbour" : "unsupported-triple");
+        VF_CHECK(o == Outcome::unsupported, ctx.describe << ": expected unsupported_database, got: " << what);
+    }
+}
 static void prop_c13(const vf::Case& c, Ctx& ctx)
 {
     uint64_t i = c[0].empty() ? 0 : c[0][0];
@@ -676,48 +722,88 @@ static void prop_c13(const vf::Case& c, Ctx& ctx)
         rewrite_version(dir + "/p.db", t);
     }
     Outcome o = try_load(dir, loaded, what);
-    // decision table
-    std::vector<e::engine_schema> exact, other_layout;
-    for (auto& kv : supported_triples())
-        if (kv.second.maj == t.maj && kv.second.min == t.min && kv.second.pat == t.pat)
-            (is_v2(kv.first) == db2 ? exact : other_layout).push_back(kv.first);
     bool adjacent = false;
-    for (auto& kv : supported_triples())
-    {
-        int64_t d = std::llabs(static_cast<int64_t>(kv.second.maj) - t.maj) + std::llabs(static_cast<int64_t>(kv.second.min) - t.min) +
-                    std::llabs(static_cast<int64_t>(kv.second.pat) - t.pat);
-        if (d <= 1)
-            adjacent = true;
-    }
+    judge_triple(db2, t, base, o, loaded, what, dir, ctx, adjacent);
     ctx.nontrivial = adjacent;
-    if (!exact.empty())
+}
+
+// C13.walk: ONE library directory whose stored version is rewritten in place several times (same file, same size, usually within the same
+// second), loaded after every rewrite in the same process.  "Selects the schema solely and exactly from the stored major, minor and patch
+// version": what an earlier load of the same directory found must not matter.
+static void prop_c13_walk(const vf::Case& c, Ctx& ctx)
+{
+    S s(c[0]);
+    ScratchDir sd;
+    std::string dir = sd.lib();
+    bool db2 = s.coin();
+    std::vector<std::pair<e::engine_schema, Triple>> mine;
+    for (auto& kv : supported_triples())
+        if (is_v2(kv.first) == db2)
+            mine.push_back(kv);
+    auto base = mine[s.below(mine.size())].first;
+    if (base == e::engine_schema::schema_1_18_0_desktop || base == e::engine_schema::schema_1_18_0_os)
+        ctx.label("walk:1.18.0-base");
     {
-        ctx.label("supported-triple");
-        VF_CHECK(o == Outcome::loaded, ctx.describe << ": a supported version was not loaded: " << what);
-        VF_CHECK(std::find(exact.begin(), exact.end(), loaded) != exact.end(), ctx.describe << ": misidentified: " << what);
-        if (exact.size() == 2)
-            VF_CHECK(loaded == base, ctx.describe << ": 1.18.0 variant misidentified: created as " << sname(base) << ", " << what);
-        VF_CHECK(e::database_exists(dir), ctx.describe << ": database_exists() false for a loadable library");
+        auto db = e::create_database(dir, base);
     }
-    else if (!other_layout.empty())
+    std::string hist = std::string(db2 ? "Database2" : "legacy") + " layout, created as " + sname(base) + ", stored version rewritten in place:";
+    size_t steps = 2 + s.below(5);
+    bool nt = false;
+    Triple prev = triple_of(base);
+    bool prev_loaded = true;
+    for (size_t k = 0; k < steps; ++k)
     {
-        // tolerance: a supported triple found in the other layout may load as exactly that schema or be rejected, never as something else
-        ctx.label("supported-triple-in-other-layout");
-        if (o == Outcome::loaded)
-            VF_CHECK(std::find(other_layout.begin(), other_layout.end(), loaded) != other_layout.end(), ctx.describe << ": misidentified: " << what);
+        Triple t;
+        switch (s.below(5))
+        {
+            case 0: t = triple_of(base); break;                                   // back to the creation version
+            case 1: t = mine[s.below(mine.size())].second; break;                // another supported version of this layout
+            case 2:                                                              // a neighbour of a supported version
+            {
+                t = mine[s.below(mine.size())].second;
+                int delta = s.coin() ? 1 : -1;
+                switch (s.below(3))
+                {
+                    case 0: t.pat += delta; break;
+                    case 1: t.min += delta; break;
+                    default: t.maj += delta; break;
+                }
+                break;
+            }
+            case 3: t = outliers()[s.below(outliers().size())]; break;
+            default: t = Triple{static_cast<int>(s.below(5)), static_cast<int>(s.below(26)), static_cast<int>(s.below(5))}; break;
+        }
+        // the 1.18.0 variants are told apart by a marker in the schema, not by the triple: the expectation "loads as the creation schema" only
+        // holds for a library created as 1.18.0, so other libraries do not visit 1.18.0
+        if (t.maj == 1 && t.min == 18 && t.pat == 0 && base != e::engine_schema::schema_1_18_0_desktop && base != e::engine_schema::schema_1_18_0_os)
+            t.pat = 1;
+        if (db2)
+            rewrite_version(dir + "/Database2/m.db", t);
+        else
+        {
+            rewrite_version(dir + "/m.db", t);
+            rewrite_version(dir + "/p.db", t);
+        }
+        hist += " " + std::to_string(t.maj) + "." + std::to_string(t.min) + "." + std::to_string(t.pat);
+        ctx.describe = hist;
+        e::engine_schema loaded{};
+        std::string what;
+        Outcome o = try_load(dir, loaded, what);
+        bool adjacent = false;
+        judge_triple(db2, t, base, o, loaded, what, dir, ctx, adjacent);
+        bool now_loaded = o == Outcome::loaded;
+        if (k > 0 && prev_loaded && (t.maj != prev.maj || t.min != prev.min || t.pat != prev.pat))
+        {
+            ctx.label(now_loaded ? "walk:loaded-then-other-supported" : "walk:loaded-then-unsupported");
+            nt = true;
+        }
+        if (k > 0 && !prev_loaded && now_loaded)
+            ctx.label("walk:rejected-then-loaded");
+        prev = t;
+        prev_loaded = now_loaded;
     }
-    else if (t.maj == 3 && t.min == 0 && t.pat == 0)
-    {
-        // tolerance: 3.0.0 is in the enum but not in supported_schemas
-        ctx.label("3.0.0");
-        if (o == Outcome::loaded)
-            VF_CHECK(loaded == e::engine_schema::schema_3_0_0, ctx.describe << ": misidentified: " << what);
-    }
-    else
-    {
-        ctx.label(adjacent ? "unsupported-neighbour" : "unsupported-triple");
-        VF_CHECK(o == Outcome::unsupported, ctx.describe << ": expected unsupported_database, got: " << what);
-    }
+    ctx.key = hist;
+    ctx.nontrivial = nt;
 }
 
 // ------------------------------------------------------------------------------------------------------ C17
@@ -1297,6 +1383,7 @@ int main(int argc, char** argv)
     add("C12", prop_c12, 1, 38);
     add("C12.norm", prop_c12_norm, 8, 0);
     add("C13", prop_c13, 1, C13_TOTAL);
+    add("C13.walk", prop_c13_walk, 24, 0);
     add("C17", prop_c17, 12, 0);
     {
         // building the element lists creates 19 libraries: only when an enumerated C17 part (or the list of sizes) is asked for
